@@ -33,6 +33,8 @@ META = {
 
 
 def run(ctx):
+    if ctx.replay:
+        return G.replay_one(ctx, "C01")
     sel, res = G.generate(ctx, "C01")
     ctx.extra["hazard_violated"] = res["hazard"].violated
     G.replay(ctx, "C01", sel)
